@@ -422,7 +422,7 @@ def zernike_coordinates(mask, shift=None, rotate=0):
     mask = np.asarray(mask, dtype=bool)
 
     if shift is None:
-        center = np.asarray(mask.shape)/2  # center in (r, c)
+        center = np.asarray(mask.shape)//2  # center in (r, c), same origin as helper.mesh
         centroid = lentil.centroid(mask)     # centroid in (r, c)
         shift = (centroid[0]-center[0], centroid[1]-center[1])
 
